@@ -282,7 +282,8 @@ def ShapeOK (table : String → Option Cal) : Loaded → Prop
   | .namedCal nm => ∃ name u, namedTryNew table name = .ok (nm, u)
   | .cal _ => True
   | .unionCal _ _ => True
-  | .unmodelled => True
+  | .curve s => NodesOK s.nodes ∧ s.interpolator ∈ interpolatorNames ∧ s.convention ∈ conventionNames ∧
+      s.modifier ∈ modifierNames ∧ s.calendar ∈ ["Cal", "UnionCal", "NamedCal"]
 
 /-- A dual number loaded from ANY JSON tree has as many sensitivities as names. -/
 theorem C20_load_dual (j : JVal) (s : DualShape) (h : loadDual j = some s) : s.nvars = s.ndual :=
@@ -310,6 +311,15 @@ theorem C20_load_fxrates (j : JVal) (s : FXShape) (h : loadFXRates j = some s) :
 theorem C20_load_named (table : String → Option Cal) (j : JVal) (nm : String)
     (h : loadNamedCal table j = some nm) : ∃ name u, namedTryNew table name = .ok (nm, u) :=
   load_named table j nm h
+
+/-- A curve loaded from any JSON tree: every dual-number node passed its validating model (names =
+sensitivities, square Hessian), and rule, convention, modifier and calendar kind are ones the library defines.
+(There is no further validation: an empty node set loads.) -/
+theorem C20_load_curve (table : String → Option Cal) (j : JVal) (s : CurveShape)
+    (h : loadCurve table j = some s) :
+    NodesOK s.nodes ∧ s.interpolator ∈ interpolatorNames ∧ s.convention ∈ conventionNames ∧
+    s.modifier ∈ modifierNames ∧ s.calendar ∈ ["Cal", "UnionCal", "NamedCal"] :=
+  load_curve table j s h
 
 /-- THE LOADING THEOREM: for every JSON tree the tagged entry point returns an error or a value
 satisfying its type's shape invariants; it has no abort path. -/
@@ -349,7 +359,9 @@ theorem C20_load_tagged (table : String → Option Cal) (j : JVal) :
     · cases h : loadSpline loadDual2 v with
       | none => exact Or.inl rfl
       | some s => exact Or.inr ⟨_, rfl, load_spline _ v s h⟩
-    · exact Or.inr ⟨_, rfl, trivial⟩
+    · cases h : loadCurve table v with
+      | none => exact Or.inl rfl
+      | some s => exact Or.inr ⟨_, rfl, load_curve table v s h⟩
     · exact Or.inl rfl
 
 end Loading
@@ -374,6 +386,19 @@ example : loadDual (exDual [.str "x"] jTwo [jOne]) = none := by decide
 example : loadDual (.obj [("real", jOne), ("real", jOne), ("vars", .arr []), ("dual", jNd (.num ⟨false, 0, 0, true⟩) [])]) = none := by decide
 example : loadDual (.obj [("extra", .null), ("real", jOne), ("vars", .arr []), ("dual", jNd (.num ⟨false, 0, 0, true⟩) [])]) = some ⟨0, 0⟩ := by decide
 example : loadDual (.arr [jOne, .arr [], jNd (.num ⟨false, 0, 0, true⟩) []]) = some ⟨0, 0⟩ := by decide
+def exCurve (key : String) (conv : JVal) : JVal :=
+  .obj [("inner", .obj [("nodes", .obj [("F64", .obj [("0", jOne), (key, jTwo), ("0", jTwo)])]),
+    ("interpolator", .obj [("Linear", .obj [])]), ("id", .str "c"), ("convention", conv),
+    ("modifier", .obj [("ModF", .null)]), ("index_base", .null),
+    ("calendar", .obj [("Cal", .obj [("holidays", .arr []), ("week_mask", .arr [])])])])]
+/-- a curve document loads (repeated key collapses, unit variants in both spellings); a key that is not an
+`i64` literal, or an unknown convention, is an error -/
+example : (loadCurve (fun _ => none) (exCurve "86400" (.str "Act360"))).map (fun s => (s.nodes, s.convention))
+    = some (.f64 2, "Act360") := by decide +kernel
+example : loadCurve (fun _ => none) (exCurve "086400" (.str "Act360")) = none := by decide +kernel
+example : loadCurve (fun _ => none) (exCurve "-0" (.str "Act360")) = none := by decide +kernel
+example : loadCurve (fun _ => none) (exCurve "9223372036854775808" (.str "Act360")) = none := by decide +kernel
+example : loadCurve (fun _ => none) (exCurve "1" (.str "Act361")) = none := by decide +kernel
 def exSpline (n : JVal) (t : List JVal) : JVal :=
   .obj [("inner", .obj [("k", jTwo), ("t", .arr t), ("c", .null), ("n", n)])]
 example : loadSpline asF64 (exSpline jOne [jOne, jOne, jTwo]) = some ⟨2, 3, 1, none⟩ := by decide
